@@ -22,19 +22,25 @@ Fixpoint compat (nm : list (string * string)) (p c : ctype) : bool :=
   | _, _ => false
   end.
 
-(* parameter / return kinds: pointer depth, integer width, floating type *)
-Inductive kind := KVoid | KInt (w : nat) | KDouble | KFloat | KPtr (depth : nat) | KStruct | KUnknown.
+(* parameter / return kinds: pointer depth AND what is pointed to at the bottom (a scalar of which width, or an opaque
+   object: structure, void, function), integer width, floating type *)
+Inductive kind := KVoid | KInt (w : nat) | KDouble | KFloat | KPtr (depth : nat) (pointee : nat) | KStruct | KUnknown.
 Fixpoint depth (t : ctype) : nat := match t with Ptr t' => S (depth t') | _ => 0 end.
+(* 0 = opaque (structure, void, function, unknown); integers by width; 1032 = float; 1064 = double *)
+Fixpoint base_tag (t : ctype) : nat :=
+  match t with
+  | Ptr t' => base_tag t' | Char => 8 | Int w _ => w | Float => 1032 | Double => 1064 | _ => 0
+  end.
 Definition kind_of (t : ctype) : kind :=
   match t with
   | Void => KVoid | Char => KInt 8 | Int w _ => KInt w | Double => KDouble | Float => KFloat
-  | Ptr _ => KPtr (depth t) | FunPtr => KPtr 1 | Named _ => KStruct | Unknown => KUnknown
+  | Ptr _ => KPtr (depth t) (base_tag t) | FunPtr => KPtr 1 0 | Named _ => KStruct | Unknown => KUnknown
   end.
 Definition kind_eqb (a b : kind) : bool :=
   match a, b with
   | KVoid, KVoid | KDouble, KDouble | KFloat, KFloat => true
   | KInt w, KInt w' => Nat.eqb w w'
-  | KPtr d, KPtr d' => Nat.eqb d d'
+  | KPtr d g, KPtr d' g' => Nat.eqb d d' && Nat.eqb g g'
   | _, _ => false
   end.
 
